@@ -69,6 +69,40 @@ func ruleOutput(c *Ctx) {
 				c.ok(key, in.Pos(), "accepted by role: %s", why)
 				return
 			}
+			// a helper that only accepted functions call (the site moved into a function of its own)
+			var viaCallers func(g *ssa.Function, depth int) (string, bool)
+			viaCallers = func(g *ssa.Function, depth int) (string, bool) {
+				if depth > 2 {
+					return "", false
+				}
+				reason, n := "", 0
+				for _, h := range fns {
+					calls := false
+					allInstrs(h, func(i2 ssa.Instruction) {
+						if ci, ok := i2.(ssa.CallInstruction); ok && ci.Common().StaticCallee() == g {
+							calls = true
+						}
+					})
+					if !calls || h == g {
+						continue
+					}
+					n++
+					if why, ok := errDropTable[fnKey(h)+":"+callee]; ok && !strings.HasPrefix(why, "FINAL FLUSH") {
+						reason = why
+						continue
+					}
+					why, ok := viaCallers(h, depth+1)
+					if !ok {
+						return "", false
+					}
+					reason = why
+				}
+				return reason, n > 0 && reason != ""
+			}
+			if why, ok := viaCallers(fn, 0); ok && recvDesc == "" {
+				c.ok(key, in.Pos(), "accepted through its only caller(s): %s", why)
+				return
+			}
 			c.bad(key, in.Pos(), "%s discards the error returned by %s and the site is not in the accepted table: a failed write/flush/close here goes unnoticed and the run reports success", fnKey(fn), callee)
 		}
 		allInstrs(fn, func(in ssa.Instruction) {
@@ -119,6 +153,34 @@ func ruleOutput(c *Ctx) {
 				dropped = !has
 			}
 			if dropped {
+				// by role: the call writes into an in-memory buffer handed to it (a *bytes.Buffer or *strings.Builder
+				// among its arguments, also when boxed into an io.Writer): such a write cannot fail
+				if closeRole == "" && recvDesc == "" {
+					for _, a := range cc.Args {
+						v := a
+						for {
+							if mi, ok := v.(*ssa.MakeInterface); ok {
+								v = mi.X
+								continue
+							}
+							if ci, ok := v.(*ssa.ChangeInterface); ok {
+								v = ci.X
+								continue
+							}
+							break
+						}
+						if isNamed(v.Type(), "bytes", "Buffer") || isNamed(v.Type(), "strings", "Builder") {
+							if _, isPtr := v.Type().(*types.Pointer); isPtr {
+								closeRole = "memory-target"
+							}
+						}
+					}
+					if closeRole == "memory-target" {
+						nDrop++
+						c.ok("errdrop:"+fnKey(fn)+":"+name, in.Pos(), "accepted by role: the target handed to %s is an in-memory buffer, which cannot fail", name)
+						return
+					}
+				}
 				report(in, name, recvDesc, closeRole)
 			}
 		})
@@ -725,17 +787,59 @@ func ruleOutput(c *Ctx) {
 				return
 			}
 			src := interpFieldLoad(st.Val)
-			if src == "" {
-				return
+			host := fn // the function that decides what the child gets (and that waits for it, or not)
+			type handover struct {
+				src  string
+				host *ssa.Function
+				pos  token.Pos
 			}
+			var hos []handover
+			if src != "" {
+				hos = append(hos, handover{src, fn, in.Pos()})
+			} else if prm, fldIdx := structParamField(st.Val); prm != nil {
+				// the descriptors come in through a small struct parameter (`execShell(cmd, shellStdio{...})`): what each
+				// call site puts into that field
+				{
+					fld := struct{ Field int }{fldIdx}
+					pst, _ := prm.Type().Underlying().(*types.Struct)
+					idx := -1
+					for i, q := range fn.Params {
+						if q == prm {
+							idx = i
+						}
+					}
+					if pst != nil && idx >= 0 {
+						fname := pst.Field(fld.Field).Name()
+						for _, caller := range fns {
+							caller := caller
+							allInstrs(caller, func(ci ssa.Instruction) {
+								call, ok := ci.(ssa.CallInstruction)
+								if !ok || call.Common().StaticCallee() != fn || idx >= len(call.Common().Args) {
+									return
+								}
+								if v := componentFieldValue(call.Common().Args[idx], fname, 0); v != nil {
+									if s2 := interpFieldLoad(v); s2 != "" {
+										hos = append(hos, handover{s2, caller, ci.Pos()})
+									}
+								}
+							})
+						}
+					}
+				}
+			}
+			_ = host
+			for _, ho := range hos {
+			src, host := ho.src, ho.host
+			in := posInstr{in, ho.pos}
 			nCW++
 			// does this function wait for the child before returning?
 			waits := false
-			allInstrs(fn, func(i2 ssa.Instruction) {
+			allInstrs(host, func(i2 ssa.Instruction) {
 				if callsNamed(i2, "waitExitCode") || callsNamed(i2, "Wait") {
 					waits = true
 				}
 			})
+			fn := host
 			// keyed by what is handed to which descriptor (not by the function, which a refactoring may split):
 			// hand-overs to a child the interpreter waits for are a class of their own
 			key := fmt.Sprintf("child-writer:%s<-%s", f.Name(), src)
@@ -753,6 +857,7 @@ func ruleOutput(c *Ctx) {
 				c.ok(key, in.Pos(), "standard error is written by the interpreter only through printErrorf, unbuffered in the default configuration; tolerated")
 			default:
 				c.bad(key, in.Pos(), "%s hands p.%s (by default a *bufio.Writer, not safe for concurrent use) to a child process that keeps running after the call: os/exec copies the child's output into it from another goroutine while the interpreter keeps printing to it - a data race that can lose or corrupt output", fnKey(fn), src)
+			}
 			}
 		})
 	}
@@ -822,13 +927,22 @@ func ruleOutput(c *Ctx) {
 		if !ok {
 			continue
 		}
-		hasCmd := false
-		for i := 0; i < st.NumFields(); i++ {
-			if isNamed(deref(st.Field(i).Type()), "os/exec", "Cmd") {
-				hasCmd = true
+		// the command may sit in the stream struct itself or in a struct embedded in it
+		var hasCmdIn func(s *types.Struct, d int) bool
+		hasCmdIn = func(s *types.Struct, d int) bool {
+			for i := 0; i < s.NumFields(); i++ {
+				if isNamed(deref(s.Field(i).Type()), "os/exec", "Cmd") {
+					return true
+				}
+				if inner, ok := deref(s.Field(i).Type()).Underlying().(*types.Struct); ok && s.Field(i).Embedded() && d < 3 {
+					if nm := named(deref(s.Field(i).Type())); nm != nil && nm.Obj().Pkg() != nil && nm.Obj().Pkg().Path() == modPath+"/interp" && hasCmdIn(inner, d+1) {
+						return true
+					}
+				}
 			}
+			return false
 		}
-		if !hasCmd {
+		if !hasCmdIn(st, 0) {
 			continue
 		}
 		nWait++
@@ -836,8 +950,15 @@ func ruleOutput(c *Ctx) {
 		for _, b := range fn.Blocks {
 			for _, in := range b.Instrs {
 				if call, ok := in.(*ssa.Call); ok {
-					if cal := call.Call.StaticCallee(); cal != nil && (cal.Name() == "waitExitCode" || cal.Name() == "Wait") {
-						waits = append(waits, b)
+					if cal := call.Call.StaticCallee(); cal != nil {
+						if cal.Name() == "waitExitCode" || cal.Name() == "Wait" {
+							waits = append(waits, b)
+						} else if cal.Pkg == fn.Pkg && len(cal.Blocks) > 0 {
+							// a helper of the package that waits on every path through it
+							if _, calls := mustEffects(cal, 0); calls["waitExitCode"] || calls["Wait"] {
+								waits = append(waits, b)
+							}
+						}
 					}
 				}
 			}
@@ -864,10 +985,8 @@ func ruleOutput(c *Ctx) {
 			rr := retResults(ret)
 			early := false
 			if len(rr) == 1 {
-				if u, ok := rr[0].(*ssa.UnOp); ok {
-					if g, ok := u.X.(*ssa.Global); ok && g.Name() == "errDoubleClose" {
-						early = true
-					}
+				if isDoubleCloseErr(rr[0], 0) {
+					early = true
 				}
 			}
 			if !early {
@@ -968,3 +1087,95 @@ func traceInterpField(v ssa.Value, depth int) string {
 }
 
 func fieldThroughIface(v ssa.Value) string { return traceInterpField(v, 0) }
+
+// isDoubleCloseErr: the error value is the double-close sentinel: a load of errDoubleClose, or the result of a helper of
+// the package whose every non-nil result is that sentinel (`if err := s.markClosed(); err != nil { return err }`).
+func isDoubleCloseErr(v ssa.Value, depth int) bool {
+	if depth > 3 {
+		return false
+	}
+	switch x := v.(type) {
+	case *ssa.UnOp:
+		if g, ok := x.X.(*ssa.Global); ok && g.Name() == "errDoubleClose" {
+			return true
+		}
+	case *ssa.Call:
+		cal := x.Call.StaticCallee()
+		if cal == nil || len(cal.Blocks) == 0 {
+			return false
+		}
+		n := 0
+		for _, b := range cal.Blocks {
+			if len(b.Instrs) == 0 {
+				continue
+			}
+			ret, ok := b.Instrs[len(b.Instrs)-1].(*ssa.Return)
+			if !ok {
+				continue
+			}
+			rr := retResults(ret)
+			if len(rr) != 1 {
+				return false
+			}
+			if isNilConst(rr[0]) {
+				continue
+			}
+			if !isDoubleCloseErr(rr[0], depth+1) {
+				return false
+			}
+			n++
+		}
+		return n > 0
+	case *ssa.Phi:
+		for _, e := range x.Edges {
+			if !isNilConst(e) && !isDoubleCloseErr(e, depth+1) {
+				return false
+			}
+		}
+		return true
+	}
+	return false
+}
+
+// posInstr: an instruction reported at another position (the call site that decides, instead of the shared helper).
+type posInstr struct {
+	ssa.Instruction
+	pos token.Pos
+}
+
+func (p posInstr) Pos() token.Pos { return p.pos }
+
+// structParamField: v reads field number idx of a struct-typed parameter (directly, or through the local copy go/ssa
+// makes of an addressable parameter): the parameter and the field number, else nil.
+func structParamField(v ssa.Value) (*ssa.Parameter, int) {
+	switch x := v.(type) {
+	case *ssa.Field:
+		if prm, ok := x.X.(*ssa.Parameter); ok {
+			return prm, x.Field
+		}
+	case *ssa.UnOp:
+		if x.Op != token.MUL {
+			return nil, 0
+		}
+		fa, ok := x.X.(*ssa.FieldAddr)
+		if !ok {
+			return nil, 0
+		}
+		al, ok := fa.X.(*ssa.Alloc)
+		if !ok || al.Referrers() == nil {
+			return nil, 0
+		}
+		var prm *ssa.Parameter
+		n := 0
+		for _, r := range *al.Referrers() {
+			if st, ok := r.(*ssa.Store); ok && st.Addr == ssa.Value(al) {
+				n++
+				prm, _ = st.Val.(*ssa.Parameter)
+			}
+		}
+		if n == 1 && prm != nil {
+			return prm, fa.Field
+		}
+	}
+	return nil, 0
+}
